@@ -364,11 +364,11 @@ def path_pred(s, block, prog=None):
                 try:
                     v = formula.evaluate(c, env)
                 except (formula.Uneval, TypeError, IndexError, ZeroDivisionError):
-                    ok = None
-                    break
+                    ok = None       # unknown decision: the path is at best unknown, a later decision can still refute it
+                    continue
                 if isinstance(v, tuple):
                     ok = None
-                    break
+                    continue
                 if (tv[0] == "eq" and v != tv[1]) or (tv[0] == "ne" and v in tv[1]):
                     ok = False
                     break
